@@ -43,6 +43,8 @@ AFutCancelCallback == A!FutCancelCallback /\ UNCHANGED dB
 BFutCancelCallback == B!FutCancelCallback /\ UNCHANGED dA
 
 Send(e) == A!SenderStep(e) /\ UNCHANGED dB      \* (the sender is shared: it writes the oldest queued frame, whichever stream it is)
+\* with fragmentation the sender may serve either stream: the fragments of the two streams interleave in every way
+SendOf(e, sid) == Frag > 0 /\ A!SenderStepOf(e, sid) /\ UNCHANGED dB
 
 Seq2(S) == IF S = {} THEN <<>>
            ELSE LET a == CHOOSE x \in S : \A y \in S : x <= y
@@ -77,6 +79,7 @@ Next2 == \/ \E n \in Credits : AOpen(n)
          \/ AFutCancelCallback
          \/ BFutCancelCallback
          \/ \E e \in E : Send(e)
+         \/ \E e \in E, sid \in {A!SID, B!SID} : SendOf(e, sid)
          \/ Quiesce2
 
 Spec2 == Init2 /\ [][Next2]_vars2
